@@ -906,6 +906,52 @@ func runC18(c *Ctx) {
 	c18batchLimit(c, m)
 	c18appendTo(c, m)
 	c18header(c, m)
+	c18messageSetWrap(c, m)
+}
+
+// c18messageSetWrap: for message sets (produce v0-v2) a compressed batch is a
+// wrapper message around the compressed bytes; it replaces the plain messages
+// only when the WRAPPED size (wrapper overhead included) is smaller, otherwise
+// the written batch exceeds the size the batch was admitted with.
+func c18messageSetWrap(c *Ctx, m *Module) {
+	rule := "message-set-wrapper-counted"
+	f := c.NeedFunc(m, "kgo.seqRecBatch.appendToAsMessageSet")
+	if f == nil {
+		return
+	}
+	info := f.Info()
+	n := 0
+	ast.Inspect(f.Decl.Body, func(x ast.Node) bool {
+		be, ok := x.(*ast.BinaryExpr)
+		if !ok || be.Op != token.LSS || nosp(exprStr(be.Y)) != "len(toCompress)" {
+			return true
+		}
+		n++
+		good := false
+		if id, ok := unparenConv(info, be.X).(*ast.Ident); ok {
+			obj := info.Uses[id]
+			fromWrap, plus8 := false, false
+			for _, rhs := range assignsTo(f, obj) {
+				if call, ok := rhs.(*ast.CallExpr); ok && calleeName(info, call) == "kgo.messageSet0Length" {
+					fromWrap = true
+				}
+			}
+			ast.Inspect(f.Decl.Body, func(y ast.Node) bool {
+				if as, ok := y.(*ast.AssignStmt); ok && as.Tok == token.ADD_ASSIGN && len(as.Lhs) == 1 {
+					if lid, ok := as.Lhs[0].(*ast.Ident); ok && info.Uses[lid] == obj {
+						if v, isC := constInt(info, as.Rhs[0]); isC && v == 8 {
+							plus8 = true
+						}
+					}
+				}
+				return true
+			})
+			good = fromWrap && plus8
+		}
+		c.Check(good, rule, f.Key+": compressed form used only if the wrapped message is smaller", be.Pos(), m, "messageSet0Length(wrapper) [+8 for the timestamp] < len(toCompress)", "the decision to use the compressed form compares `"+exprStr(be.X)+"` with the uncompressed size instead of the wrapped message length: when compression saves fewer bytes than the wrapper adds (26/34), the written batch is larger than the size it was admitted with and can exceed the batch and request limits")
+		return true
+	})
+	c.Check(n == 1, rule, f.Key+"#comparison", f.Pos(), m, "", "comparison against len(toCompress) not found")
 }
 
 // c18header: the batch header fields are consistent with the records.
